@@ -69,7 +69,21 @@ def gen_twin(rng):
     from adcgen.indices import get_symbols
     from adcgen.sympy_objects import AntiSymmetricTensor, NonSymmetricTensor, Amplitude
     i, j, k, l, a, b, c, d = get_symbols("ijklabcd")
-    pat = rng.randrange(5)
+    pat = rng.randrange(8)
+    if pat >= 5:
+        # joint (anti)symmetry of remainder and denominator under permutations of *target* indices
+        # (must not be used to symmetrise the numerator) next to contracted ones
+        def V(p, q, r, s_):
+            return AntiSymmetricTensor("V", (p, q), (r, s_))
+        if pat == 5:
+            rem, idx, T = V(i, k, a, b) * V(j, k, a, b), [i, j, k, a, b], [i, j]
+        elif pat == 6:
+            rem, idx, T = V(i, j, a, b), [i, j, a, b], [i, j, a, b]
+        else:
+            rem, idx, T = V(i, k, a, c) ** 2, [i, k, a, c], [i, a]
+        occ = [s for s in idx if s.space == "occ"]
+        virt = [s for s in idx if s.space == "virt"]
+        return rem, occ, virt, idx, T
     if pat == 0:
         rem = NonSymmetricTensor("c", (i, k)) * NonSymmetricTensor("c", (j, l))
         idx = [i, j, k, l]
